@@ -399,6 +399,112 @@ def proofrecCheck (cnf : CNF) (proofs : List (List Nat)) : Bool :=
 
 end Holpy.C15
 
+-- ---------------------------------------------------------------- zChaff traces: VAR / CONF sections
+namespace Holpy.C15
+
+/-- one line of a zChaff `resolve_trace` as `zChaff.solve` reads it -/
+inductive ZLine where
+  | cl (id : Nat) (rsl : List Nat)                                  -- `CL: id <= c0 c1 …`
+  | var (v level : Nat) (value : Bool) (ante : Nat) (lits : List Nat) -- `VAR: v L: l V: b A: c Lits: …`
+  | conf (cls : Nat) (lits : List Nat)                              -- `CONF: c == …`
+  deriving Repr, DecidableEq
+
+/-- a whitespace-separated token of a trace line: a number or anything else -/
+inductive ZTok where
+  | num (n : Nat)
+  | word (s : String)
+  deriving Repr, DecidableEq
+
+/-- `Resolvent` / `ImpliedVarValue` / `Conflict`: the line's kind is read off its beginning, the
+regular expressions drop the labels, what is left must be numbers. -/
+def zLabels : List String := ["CL:", "<=", "VAR:", "L:", "V:", "A:", "Lits:", "CONF:", "=="]
+
+def zNums : List ZTok → Option (List Nat)
+  | [] => some []
+  | .num n :: rest => (zNums rest).map (n :: ·)
+  | .word w :: rest => if zLabels.contains w then zNums rest else none
+
+def parseZLine (toks : List ZTok) : Option ZLine :=
+  match toks, zNums toks with
+  | .word "CL:" :: _, some (i :: rsl) => some (.cl i rsl)
+  | .word "VAR:" :: _, some (v :: l :: b :: a :: lits) => some (.var v l (b == 1) a lits)
+  | .word "CONF:" :: _, some (c :: lits) => some (.conf c lits)
+  | _, _ => none
+
+/-- stable insertion by level (`sorted(second, key=lambda x: x.level)`) -/
+def insertByLevel (x : Nat × ZLine) : List (Nat × ZLine) → List (Nat × ZLine)
+  | [] => [x]
+  | y :: ys => if y.1 ≤ x.1 then y :: insertByLevel x ys else x :: y :: ys
+
+def zLevel : ZLine → Nat
+  | .var _ l _ _ _ => l
+  | _ => 0
+
+def sortByLevel (l : List ZLine) : List ZLine :=
+  ((l.map (fun x => (zLevel x, x))).foldl (fun acc x => insertByLevel x acc) []).map (·.2)
+
+/-- value recorded for a variable (`var_pt`, a dict: the last entry counts) -/
+def knownLit (known : List Lit) (x : Nat) : Option Lit := known.reverse.find? (fun l => l.1 == x)
+
+def lookupAll (known : List Lit) : List Nat → Option (List Lit)
+  | [] => some []
+  | x :: xs =>
+    match knownLit known x, lookupAll known xs with
+    | some k, some ks => some (k :: ks)
+    | _, _ => none
+
+/-- one `VAR` line: the antecedent clause must consist of the implied literal and the negations
+of the recorded values of the other listed variables, exactly (`DisjForceMacro`) -/
+def zImply (cnf : CNF) (known : List Lit) (v : Nat) (value : Bool) (ante : Nat) (lits : List Nat) :
+    Option Lit :=
+  match cnf[ante]? with
+  | none => none
+  | some c =>
+    let others := (lits.map (· / 2)).filter (fun x => x != v)
+    match lookupAll known others with
+    | none => none
+    | some ks =>
+      let goal : Lit := (v, value)
+      let expected : Clause := goal :: ks.map (fun l => (l.1, !l.2))
+      if others.isEmpty then (if c.all (· == goal) && !c.isEmpty then some goal else none)
+      else if c.all expected.contains && expected.all c.contains then some goal else none
+
+def zImplyAll (cnf : CNF) : List ZLine → List Lit → Option (List Lit)
+  | [], known => some known
+  | .var v _ value ante lits :: rest, known =>
+    match zImply cnf known v value ante lits with
+    | some g => zImplyAll cnf rest (known ++ [g])
+    | none => none
+  | _ :: _, _ => none
+
+/-- the `CONF` line: every literal of the conflicting clause is the negation of the recorded value
+of a listed variable (`DisjFalseMacro` reduces the clause to `false`) -/
+def zConflict (cnf : CNF) (known : List Lit) (cls : Nat) (lits : List Nat) : Bool :=
+  match cnf[cls]?, lookupAll known (lits.map (· / 2)) with
+  | some c, some ks => c.all (fun l => ks.contains (l.1, !l.2))
+  | _, _ => false
+
+/-- `zChaff.solve` from the parsed trace on: replay the `CL` lines, derive the implied values in
+level order, check the conflict (the first `CONF` line).  `true` = the refutation goes through. -/
+def zCheck (cnf : CNF) (trace : List ZLine) : Bool :=
+  let cls := trace.filterMap (fun l => match l with | .cl _ rsl => some rsl | _ => none)
+  let vars := sortByLevel (trace.filter (fun l => match l with | .var .. => true | _ => false))
+  let confs := trace.filter (fun l => match l with | .conf .. => true | _ => false)
+  match zReplay cnf cls, confs with
+  | some c', .conf cl lits :: _ =>
+    match zImplyAll c' vars [] with
+    | some known => zConflict c' known cl lits
+    | none => false
+  | _, _ => false
+
+/-- from the file content (token lists of its lines) -/
+def zCheckLines (cnf : CNF) (lines : List (List ZTok)) : Bool :=
+  match lines.mapM parseZLine with
+  | some tr => zCheck cnf tr
+  | none => false
+
+end Holpy.C15
+
 -- ---------------------------------------------------------------- Tseitin encoding
 namespace Holpy.C15
 
